@@ -125,6 +125,34 @@ class Opaque:
         self.name = name
 
 
+class Bytes:
+    def __init__(self, b):
+        self.b = b
+
+
+class IFloat:
+    """an f64 known to hold an integral value (day counts): carried as an Int term"""
+    def __init__(self, t):
+        self.t = t
+
+
+def decode_bytes(txt):
+    out = bytearray()
+    k = 0
+    while k < len(txt):
+        if txt[k] == "\\":
+            if txt[k + 1] == "x":
+                out.append(int(txt[k + 2:k + 4], 16))
+                k += 4
+            else:
+                out.append({"n": 10, "t": 9, "r": 13, "0": 0, "\\": 92, '"': 34, "'": 39}[txt[k + 1]])
+                k += 2
+        else:
+            out += txt[k].encode()
+            k += 1
+    return bytes(out)
+
+
 # ---------------------------------------------------------------------------------------------- MIR text
 class Fn:
     def __init__(self, name, header, args, ret, locals_, blocks, src):
@@ -294,6 +322,7 @@ class Ctx:
         self.counter = 0
         self.max_paths = max_paths
         self.functions_seen = set()
+        self.model = None
 
     def fresh_value(self, name, ty):
         ty = ty.strip()
@@ -358,6 +387,10 @@ class Ctx:
                     cont(ret, p)
                 return
             m = re.match(r"^goto -> bb(\d+);$", term)
+            if m:
+                bb = int(m.group(1))
+                continue
+            m = re.match(r"^drop\(.*\) -> \[return: bb(\d+), unwind.*\];$", term)
             if m:
                 bb = int(m.group(1))
                 continue
@@ -437,6 +470,13 @@ class Ctx:
                         outer.exec_block(fn, fr2, nxt, p2, cont)
                     self.exec_block(target, callee_fr, 0, p, k)
                     return
+                if self.model is not None:
+                    handled, rv = self.model.call(self, fr, callee, args, p)
+                    if handled:
+                        p.calls.append((callee, args, rv))
+                        self.assign(fr, dest, rv)
+                        bb = nxt
+                        continue
                 # uninterpreted call: result is a fresh record / scalar
                 self.counter += 1
                 rty = self.dest_type(fr, dest)
@@ -517,9 +557,13 @@ class Ctx:
 
     def operand(self, fr, s):
         s = s.strip()
+        if s.startswith("no_retag "):
+            s = s[9:].strip()
         if s.startswith("copy ") or s.startswith("move "):
             l, proj = parse_place(s[5:])
             return self.read_place(fr, l, proj)
+        if s.startswith("const ") and s.endswith("}") and "{" in s and not s.startswith("const {"):
+            return Opaque(s)
         if s.startswith("const "):
             c = s[6:].strip()
             if c == "true":
@@ -533,6 +577,9 @@ class Ctx:
             if m and m.group(1) in INT_TYPES:
                 lo, hi = INT_TYPES[m.group(1)]
                 return I(lo if m.group(2) == "MIN" else hi)
+            m = re.match(r'^b"(.*)"$', c)
+            if m:
+                return Bytes(decode_bytes(m.group(1)))
             return Opaque(c)
         raise Unsupported("operand: " + s)
 
@@ -577,6 +624,23 @@ class Ctx:
                     return arith("tdiv", a, b)
                 return arith("trem", a, b)
             raise Unsupported("wrapping/unchecked arithmetic: " + rv)
+        if rv.startswith("no_retag "):
+            rv = rv[9:].strip()
+        if (rv.startswith("[") and rv.endswith("]")) or (rv.startswith("(") and rv.endswith(")") and ("," in rv) and not rv.startswith("((") and ": " not in rv.split(",")[0]):
+            inner = rv[1:-1]
+            return Tup([self.operand(fr, a) for a in split_top(inner)])
+        m = re.match(r"^(.*) as (\w+) \(FloatToInt\)$", rv)
+        if m:
+            v = self.operand(fr, m.group(1))
+            if isinstance(v, IFloat):
+                return v.t
+            raise Unsupported("float to int cast of a non-integral float: " + rv)
+        m = re.match(r"^(.*) as (\w+) \(IntToFloat\)$", rv)
+        if m:
+            v = self.operand(fr, m.group(1))
+            if isinstance(v, T):
+                return IFloat(v)
+            raise Unsupported("int to float cast: " + rv)
         m = re.match(r"^(.*) as (\w+) \(IntToInt\)$", rv)
         if m:
             v = self.operand(fr, m.group(1))
@@ -598,6 +662,16 @@ class Ctx:
             return Ref(fr, l, proj)
         if rv.startswith("copy ") or rv.startswith("move ") or rv.startswith("const "):
             return self.operand(fr, rv)
+        m = re.match(r"^([A-Za-z_][\w:<>]*) \{ (.*) \}$", rv)
+        if m:
+            # struct aggregate with named fields
+            self.counter += 1
+            r = Rec(self, "agg%d:%s" % (self.counter, m.group(1)), m.group(1))
+            r.named = {}
+            for part in split_top(m.group(2)):
+                fname, val = part.split(":", 1)
+                r.named[fname.strip()] = self.operand(fr, val.strip())
+            return r
         m = re.match(r"^([A-Za-z_][\w:<>]*)( \{.*\})?$", rv)
         if m and not m.group(2):
             # unit-like aggregate (e.g. `AbstractCulture`): a record nobody reads
